@@ -8,9 +8,74 @@ import (
 	"os"
 	"path/filepath"
 
+	"massnet.org/mass/poc/wallet/db"
 	"verif/harness/internal/vh"
 	"verif/harness/internal/wl"
 )
+
+// faultedRekey: "one private passphrase governs all keystores at all times" must also hold when a passphrase change
+// is cut short by a storage fault: with >= 2 keystores the change is run over a fault-injecting store (one failing
+// write or commit), the wallet is reopened from the real store, and every keystore must accept the same passphrase.
+func faultedRekey(run *vh.Run, e *wl.Env) {
+	m := e.M
+	if len(m.Order) < 2 || m.Priv == nil {
+		return
+	}
+	dir := e.W.Dir
+	e.W.Close()
+	e.W = nil
+	var fdb *wl.FaultDB
+	w, err := wl.Open(dir, m.Pub, func(d db.DB) db.DB { fdb = wl.NewFaultDB(d); return fdb })
+	if err != nil {
+		return
+	}
+	newPass := wl.FreshPass(e.Rng)
+	kind := e.Rng.PickS("write", "write", "commit", "crash-before", "crash-after")
+	at := e.Rng.Range(1, 2*len(m.Order))
+	if kind != "write" {
+		at = e.Rng.Range(1, 2)
+	}
+	fdb.Arm(wl.FaultPlan{Kind: kind, At: at})
+	var cerr error
+	func() {
+		defer func() {
+			if r := recover(); r != nil {
+				if _, ok := r.(wl.CrashSentinel); !ok {
+					panic(r)
+				}
+			}
+		}()
+		cerr = w.M.ChangePrivPassphrase(m.Priv, newPass, wl.FastScrypt)
+	}()
+	fired := fdb.Fired
+	fdb.Disarm()
+	w.Close()
+	w2, err := wl.Open(dir, m.Pub, nil)
+	if err != nil {
+		return
+	}
+	defer w2.Close()
+	run.Count("faulted_passphrase_changes", 1)
+	if fired {
+		run.Count("faulted_passphrase_changes_fault_fired", 1)
+	}
+	acc := map[string]string{}
+	for _, id := range w2.M.ListKeystoreNames() {
+		_, eo := w2.M.ExportKeystore(id, m.Priv)
+		_, en := w2.M.ExportKeystore(id, newPass)
+		acc[id] = fmt.Sprintf("old=%v new=%v", eo == nil, en == nil)
+	}
+	first := ""
+	for _, v := range acc {
+		if first == "" {
+			first = v
+		} else if v != first {
+			e.Trace = append(e.Trace, fmt.Sprintf("ChangePrivPassphrase over a fault-injecting store (%s #%d, fired=%v) -> %v; restart", kind, at, fired, cerr))
+			e.Report([]string{"C03"}, "passphrase-governs-some-keystores-only", map[string]string{"pass_class": "after-faulted-passphrase-change"}, map[string]interface{}{"accepts": acc, "fault": kind, "at": at})
+			return
+		}
+	}
+}
 
 func main() {
 	run := vh.NewRun("C03", "exploration")
@@ -20,6 +85,21 @@ func main() {
 		W: wl.Weights{"create": 5, "next": 6, "genpub": 4, "remark": 1, "chpriv": 8, "chpub": 2, "delete": 4,
 			"export": 5, "import": 4, "lock": 7, "unlock": 10, "sign": 8, "restart": 4},
 		Inspect: true,
+		Mutate: func(r *vh.Rng, ops []wl.Op) []wl.Op {
+			if r.Chance(1, 3) {
+				return ops
+			}
+			// hostile-but-legal argument combinations while LOCKED with two keystores: a public passphrase change
+			// whose candidate equals the private passphrase (refused, but it makes the code derive the master key),
+			// a private passphrase change, a create with the current passphrase, then unlock
+			ins := []wl.Op{{Kind: "create", PC: "cur", SeedKind: "fresh", Remark: "second"}, {Kind: "lock"}, {Kind: "chpub", PC: "cur", NPC: "priv"},
+				{Kind: "chpriv", PC: "cur", NPC: "fresh"}, {Kind: "export", PC: "cur", K: r.Intn(2)}, {Kind: "unlock", PC: "cur"}, {Kind: "sign", N: 3}, {Kind: "lock"}}
+			pos := 1 + r.Intn(len(ops)/2+1)
+			out := append([]wl.Op{}, ops[:pos]...)
+			out = append(out, ins...)
+			return append(out, ops[pos:]...)
+		},
+		After: func(e *wl.Env) { faultedRekey(run, e) },
 		Step: func(e *wl.Env, r wl.Res) {
 			if os.Getenv("VERIF_DEBUG") != "" {
 				u, views := e.W.M.VerifInspect()
